@@ -3,6 +3,9 @@ import Lean.Data.Json
 import GqlgenVerif.Model.Stream
 import GqlgenVerif.Model.StreamGen
 import GqlgenVerif.Model.StreamLoopGen
+import GqlgenVerif.Model.StreamGuard
+import GqlgenVerif.Model.StreamAlias
+import GqlgenVerif.Gen.StreamGuard
 open GqlgenVerif GqlgenVerif.Stream GqlgenVerif.StreamLoop
 namespace Driver.C12
 
@@ -43,6 +46,14 @@ def parseResps (s : String) : Option (List Resp) :=
 def parseSched (s : String) : Option (List Step) :=
   if s = "-" then some [] else
   s.toList.mapM fun c => if c = 'm' then some Step.main else if c = 't' then some Step.tick else none
+
+/-- schedule with cancellations of the request context: m = `Do`'s next write, t = keep-alive tick,
+    c = the request context ends (server side; the client stays connected) -/
+def parseCSched (s : String) : Option (List StreamGuard.CStep) :=
+  if s = "-" then some [] else
+  s.toList.mapM fun c =>
+    if c = 'm' then some StreamGuard.CStep.main else if c = 't' then some StreamGuard.CStep.tick
+    else if c = 'c' then some StreamGuard.CStep.cancel else none
 
 def toBA (b : Bytes) : ByteArray := ByteArray.mk (b.map (·.toUInt8)).toArray
 
@@ -104,10 +115,12 @@ def step (line : String) : String :=
   -- `sseo` / `mpo`: an operation = good responses, then nil (`-`) or a panic (the error response);
   -- the regenerated response loop decides what reaches the writer
   | ["sseo", ka, good, fin, sched] =>
-    match parsePayloads good, parseFinB fin, parseSched sched with
+    match parsePayloads good, parseFinB fin, parseCSched sched with
     | some good, some fin, some sched =>
       let e := (runLoop Gen.StreamLoop.nextFacts Gen.StreamLoop.sseLoop good fin ⟨true, []⟩).2
-      let cs := sseChunks (ka != "0") (genSseDelivered good fin) sched
+      -- every write goes through the regenerated statements of `sseConnection.write`
+      -- (`sseCancelChunksR` = `sseCancelChunks` with the chunk list built newest first: `sse_driver_runs_model`)
+      let cs := StreamGuard.sseCancelChunksR Gen.StreamGuard.sseWrite (ka != "0") (genSseDelivered good fin) sched
       hex (chunksBytes genSse cs) ++ " " ++ showList (cs.map fun c => showItem c.item) false ++ " " ++ showEnd e
     | _, _, _ => "bad-op"
   | ["mpo", b, good, fin, sched] =>
@@ -136,6 +149,13 @@ def step (line : String) : String :=
       let r := parseMP b bytes
       hex bytes ++ " " ++ showList (r.1.map showMItem) false
     | _, _, _ => "bad-op"
+  -- content of a stream outside the hasNext shape (delimiters are not judged there)
+  | ["mpcontent", ps, raw] =>
+    match parseResps ps, unhex raw with
+    | some ps, some raw =>
+      if !ps.all (fun p => oneLine p.body && jsonOK p.body) then "violates:payload-not-one-line-json"
+      else if StreamAlias.mpContentSpec genMp ps raw then "ok" else "violates:noshape-content"
+    | _, _ => "bad-op"
   | ["mpchk", mode, b, ps, raw] =>
     match unhex b, parseResps ps, unhex raw with
     | some b, some ps, some raw => mpVerdict (mode == "full") b ps raw
